@@ -1044,10 +1044,11 @@ impl Entry {
                     .filter_map(|c| c.as_token().map(|t| t.text()))
                     .collect::<String>();
                 let formatted = format_value(self.key().as_ref().unwrap(), &concat);
-                // lex line by line: after a line break the lexer would otherwise expect
-                // a field name and turn the next value line into a KEY token
+                // lex line by line: after a line break (the lexer takes a bare CR for one
+                // too) the lexer would otherwise expect a field name and turn the next
+                // value line into a KEY token
                 let mut tokens = vec![];
-                for (i, line) in formatted.split('\n').enumerate() {
+                for (i, line) in formatted.split(|c| c == '\n' || c == '\r').enumerate() {
                     if i > 0 {
                         tokens.push((NEWLINE, "\n".to_string()));
                     }
